@@ -573,17 +573,23 @@ def Run(tier):
     if res['bad']:
       bad_items.append((item, res))
 
-  # TLC names the clause of every mismatching history (GroundTrace)
+  # TLC decides every mismatching history (GroundTrace names the clauses); a
+  # difference from the model state that the specification does not reject
+  # (a faithful extra table, see GroundSem!Informational) is MODEL-DRIFT.
+  history_drift = 0
   if bad_items:
     lines = [{'tid': 'h%d' % k, 'dev': [], 'versions': item['family']['versions'],
               'steps': res['events']}
-             for k, (item, res) in enumerate(bad_items[:40])]
+             for k, (item, res) in enumerate(bad_items)]
     hv, _, herr = ValidateTraces(lines, 'c17hist')
     if herr:
       machinery.append('GroundTrace on mismatching histories: %s' % herr[:1])
     for k, (item, res) in enumerate(bad_items):
       tlc_says = [v for (tid, _), v in sorted(hv.items())
                   if tid == 'h%d' % k and not v['ok']]
+      if not tlc_says and not herr:
+        history_drift += 1
+        continue
       path = common.WriteReplay(PROP, 'hist_f%d_%s' % (
           item['ix'], common.Sha(item['hist'])), {
               'mode': 'history', 'family': item['family'], 'ix': item['ix'],
@@ -594,8 +600,13 @@ def Run(tier):
       if len(violations) <= 25:
         print('  history of family %d differs at step %d (%s); GroundTrace: %s'
               % (item['ix'], res['bad']['step'], res['bad']['clause'],
-                 sorted({v['clause'] for v in tlc_says}) or '-'))
+                 sorted({c['clause'] for v in tlc_says for c in v['all']})))
         common.Violation(PROP, path)
+  if history_drift:
+    print('MODEL-DRIFT property=%s %d replayed histories differ from the '
+          'model state but are accepted by GroundTrace (a table of a '
+          'grounded predicate that is not below the requested one was '
+          'written, faithfully)' % (PROP, history_drift))
 
   # ---- (b) ----
   kept, skipped = [], collections.Counter()
@@ -617,11 +628,14 @@ def Run(tier):
         [TraceLine(c) for c in kept], 'c17')
   trace_kinds = collections.Counter()
   clauses = collections.Counter()
+  extra_written = 0
   nontrivial_traces = set()
   by_tid = {c['tid']: c for c in kept}
   for (tid, step), v in verdicts.items():
     trace_kinds[v['kind']] += 1
     clauses[v['clause']] += 1
+    extra_written += sum(1 for c in v['all']
+                         if c['clause'] == 'extra_table_written')
     ev = by_tid[tid]['events'][step - 1]
     if ev['a'] == 'Run' and ev['ver'] == 2:
       trace_kinds['RunInSecondVersion'] += 1
@@ -655,6 +669,10 @@ def Run(tier):
   if errors:
     machinery.append('GroundTrace: %s' % json.dumps(errors)[:2500])
   cls.Report()
+  if extra_written:
+    print('MODEL-DRIFT property=%s %d recorded run(s) also wrote, faithfully, '
+          'the table of a grounded predicate that is not below the requested '
+          'one' % (PROP, extra_written))
   if drift:
     print('MODEL-DRIFT property=%s %d run(s) whose main SQL does not mention '
           'the table of a grounded predicate it reads (results agree)' % (
@@ -762,6 +780,8 @@ def Run(tier):
       'classified': dict(counters),
       'known_findings_hit': {k: len(v) for k, v in cls.hit.items()},
       'model_drift_runs': drift,
+      'model_drift_histories_accepted_by_tlc': history_drift,
+      'model_drift_extra_tables_written': extra_written,
       'timing_s': {'model': t_model, 'replay': round(t_replay, 1),
                    'traces_tlc': round(t_traces, 1)},
   }
@@ -806,8 +826,6 @@ def Replay(path):
             'steps': res['events']}
     verdicts, _, errors = ValidateTraces([line], 'c17replay')
     bad = [v for v in verdicts.values() if not v['ok']]
-    if res['bad']:
-      bad.append(res['bad'])
     print('first difference from the model state:', res['bad'])
   else:
     case = rp['case']
